@@ -145,6 +145,214 @@ def editsOK (created final : List Baggage) (es : List Edit) : Bool :=
     | .set r (some m) => setOK (created.getD r []) m res
     | .del r k => deleteOK (created.getD r []) k res)
 
+/-! ### context scripts -/
+
+def ctxOpOfSpec (s : String) : Option CtxOp :=
+  match splitC s ':' with
+  | ["w", r, ms] => do
+    let r ← parseNat r
+    let ms ← membersOfSpec ms
+    pure (.withBag r (match new ms with | .ok b => b | .error _ => []))
+  | ["o", r] => do let r ← parseNat r; pure (.without r)
+  | ["x", r, h] => do
+    let r ← parseNat r
+    if h == "-" then pure (.extract r none) else do let h ← parseHex h; pure (.extract r (some h))
+  | ["i", r] => do let r ← parseNat r; pure (.inject r)
+  | _ => none
+
+/-- model heap, one agreement bit and one oracle bit per op; `oheap` = bags observed in the contexts -/
+def ctxWalk : List CtxOp → List String → List Ctx → List Baggage → Bool → Bool → List String → Option (List Ctx × List Baggage × Bool × Bool × List String)
+  | [], [], heap, oheap, a, sp, ms => some (heap, oheap, a, sp, ms.reverse)
+  | op :: ops, o :: os, heap, oheap, a, sp, ms =>
+    let heap' := applyCtxOp heap op
+    let nc := heap'.getD heap.length none
+    match op with
+    | .inject r =>
+      let mh := injectCtx (heap.getD r none)
+      let parent := oheap.getD r []
+      let oh := if o == "-" then some none else (parseHex o).map some
+      match oh with
+      | none => none
+      | some oh =>
+        let ag := match mh, oh with
+          | none, none => true
+          | some x, some y => sortedPieces x == sortedPieces y
+          | _, _ => false
+        -- oracle: no header only if nothing can be serialised; a header is never empty
+        let ok := match oh with
+          | none => parent.all (fun m => !isToken m.key)
+          | some h => !h.isEmpty
+        ctxWalk ops os heap' (oheap ++ [parent]) (a && ag) (sp && ok)
+          ((match mh with | none => "-" | some x => hexOf x) :: ms)
+    | .withBag _ _ =>
+      match bagOfObs o with
+      | none => none
+      | some ob => ctxWalk ops os heap' (oheap ++ [ob]) (a && sameMap (fromContext nc) ob) sp (renderBag (fromContext nc) :: ms)
+    | .without _ =>
+      match bagOfObs o with
+      | none => none
+      | some ob => ctxWalk ops os heap' (oheap ++ [ob]) (a && sameMap (fromContext nc) ob) (sp && ob.isEmpty) (renderBag (fromContext nc) :: ms)
+    | .extract r h =>
+      match bagOfObs o with
+      | none => none
+      | some ob =>
+        let parent := oheap.getD r []
+        let ok := match h with
+          | none => sameMap ob parent
+          | some h => extractOK parent h ob
+        ctxWalk ops os heap' (oheap ++ [ob]) (a && sameMap (fromContext nc) ob) (sp && ok) (renderBag (fromContext nc) :: ms)
+  | _, _, _, _, _, _, _ => none
+
+/-! ### alias scripts: shared argument tables, mutated after the calls; values are immutable in the model -/
+
+inductive AStep
+  | nm (enc : Bool) (k v : Bytes) (lo hi : Nat)
+  | op (i : Nat) (p : Property)
+  | ap (lo hi : Nat) (p : Property)
+  | tm (i j : Nat)
+  | am (lo hi j : Nat)
+  | nb (lo hi : Nat)
+  | sm (b j : Nat)
+  | dm (b : Nat) (k : Bytes)
+  | nop
+
+def aStepOfSpec (s : String) : Option AStep :=
+  match splitC s ':' with
+  | ["nm", c, k, v, lo, hi] => do
+    let k ← parseHex k; let v ← parseHex v; let lo ← parseNat lo; let hi ← parseNat hi
+    if c == "e" then pure (.nm true k v lo hi) else if c == "r" then pure (.nm false k v lo hi) else none
+  | ["op", i, p] => do let i ← parseNat i; let p ← propOfSpec p; pure (.op i p)
+  | ["ap", lo, hi, p] => do let lo ← parseNat lo; let hi ← parseNat hi; let p ← propOfSpec p; pure (.ap lo hi p)
+  | ["tm", i, j] => do let i ← parseNat i; let j ← parseNat j; pure (.tm i j)
+  | ["am", lo, hi, j] => do let lo ← parseNat lo; let hi ← parseNat hi; let j ← parseNat j; pure (.am lo hi j)
+  | ["nb", lo, hi] => do let lo ← parseNat lo; let hi ← parseNat hi; pure (.nb lo hi)
+  | ["sm", b, j] => do let b ← parseNat b; let j ← parseNat j; pure (.sm b j)
+  | ["dm", b, k] => do let b ← parseNat b; let k ← parseHex k; pure (.dm b k)
+  | ["mm", _] => some .nop
+  | ["mp", _] => some .nop
+  | ["mq", _, _] => some .nop
+  | _ => none
+
+def clampLoHi (lo hi n : Nat) : Nat × Nat :=
+  let lo := min lo n
+  (lo, max lo (min hi n))
+
+def sliceL {α} (l : List α) (lo hi : Nat) : List α := (l.drop lo).take (hi - lo)
+
+structure AState where
+  pt : List Property
+  mt : List (Option Member)
+  mems : List (Option Member)
+  bags : List Baggage
+  omt : List (Option Member)
+  omems : List (Option Member)
+  obags : List Baggage
+  agree : Bool
+  spec : Bool
+  tags : List String
+  model : List String
+
+/-- reference for `New` on valid members: later duplicates win -/
+def refNew (l : List Member) : Baggage := l.foldl (fun acc m => unionRight acc [m]) []
+
+def aStep (st : AState) (step : AStep) (bit dump : String) : Option AState :=
+  let st := { st with agree := st.agree && bit == "1", spec := st.spec && bit == "1" }
+  let plain := fun (st : AState) (tag : String) => some { st with agree := st.agree && dump == "-", tags := tag :: st.tags, model := "-" :: st.model }
+  match step with
+  | .nm enc k v lo hi =>
+    let (lo, hi) := clampLoHi lo hi st.pt.length
+    let ps := sliceL st.pt lo hi
+    let m := if enc then newMember k v ps else newMemberRaw k v ps
+    let ms := match m with | none => "err" | some m => "ok:" ++ renderMember m
+    let om : Option (Option Member) :=
+      if dump == "err" then some none
+      else if dump.startsWith "ok:" then (memberOfObs (dump.drop 3).toString).map some else none
+    match om with
+    | none => none
+    | some om =>
+      let ok := match om with | none => true | some x => ctorMemberOK x
+      some { st with mems := st.mems ++ [m], omems := st.omems ++ [om], agree := st.agree && ms == dump,
+                     spec := st.spec && ok, tags := (if m.isSome then (if ps.isEmpty then "nm" else "nm-props") else "nm-err") :: st.tags,
+                     model := ms :: st.model }
+  | .op i p => plain { st with pt := st.pt.set i p } "op"
+  | .ap lo hi p =>
+    let (_, hi) := clampLoHi lo hi st.pt.length
+    plain { st with pt := if hi < st.pt.length then st.pt.set hi p else st.pt } (if hi < st.pt.length then "ap-spare" else "ap-full")
+  | .tm i j =>
+    if i < st.mt.length && j < st.mems.length then
+      plain { st with mt := st.mt.set i (st.mems.getD j none), omt := st.omt.set i (st.omems.getD j none) } "tm"
+    else plain st "noop"
+  | .am lo hi j =>
+    let (_, hi) := clampLoHi lo hi st.mt.length
+    if j < st.mems.length && hi < st.mt.length then
+      plain { st with mt := st.mt.set hi (st.mems.getD j none), omt := st.omt.set hi (st.omems.getD j none) } "am-spare"
+    else plain st "am-full"
+  | .nb lo hi =>
+    let (lo, hi) := clampLoHi lo hi st.mt.length
+    let r := new (sliceL st.mt lo hi)
+    let b := match r with | .ok b => b | .error _ => []
+    match resOfObs dump with
+    | none => none
+    | some ob =>
+      let osl := sliceL st.omt lo hi
+      let ok := match ob with
+        | .ok x => osl.all Option.isSome && sameMap x (refNew (osl.filterMap id))
+        | .error e => e != "panic"
+      let obag := match ob with | .ok x => x | .error _ => []
+      some { st with bags := st.bags ++ [b], obags := st.obags ++ [obag], agree := st.agree && sameRes r ob,
+                     spec := st.spec && ok, tags := ("nb-" ++ resTag r) :: st.tags, model := renderRes r :: st.model }
+  | .sm bi j =>
+    if bi < st.bags.length && j < st.mems.length then
+      let m := st.mems.getD j none
+      let b := (setMemberOpt (st.bags.getD bi []) m).1
+      match resOfObs dump with
+      | some (.ok ob) =>
+        let old := st.obags.getD bi []
+        let ok := match st.omems.getD j none with
+          | none => sameMap ob old
+          | some om => setOK old om ob
+        some { st with bags := st.bags ++ [b], obags := st.obags ++ [ob], agree := st.agree && sameMap b ob,
+                       spec := st.spec && ok, tags := (if m.isSome then "sm" else "sm-invalid") :: st.tags, model := ("ok:" ++ renderBag b) :: st.model }
+      | _ => none
+    else plain st "noop"
+  | .dm bi k =>
+    if bi < st.bags.length then
+      let b := deleteMember (st.bags.getD bi []) k
+      match resOfObs dump with
+      | some (.ok ob) =>
+        some { st with bags := st.bags ++ [b], obags := st.obags ++ [ob], agree := st.agree && sameMap b ob,
+                       spec := st.spec && deleteOK (st.obags.getD bi []) k ob, tags := "dm" :: st.tags, model := ("ok:" ++ renderBag b) :: st.model }
+      | _ => none
+    else plain st "noop"
+  | .nop => plain st "mutate-returned"
+
+def aWalk : List AStep → List String → AState → Option AState
+  | [], [], st => some st
+  | s :: ss, bit :: dump :: os, st =>
+    match aStep st s bit dump with
+    | none => none
+    | some st' => aWalk ss os st'
+  | _, _, _ => none
+
+/-- per-key part of a `lookup` line: (agree, oracle, model text) -/
+def lookupWalk (b ob : Baggage) : List Bytes → List String → Option (Bool × Bool × List String)
+  | [], [] => some (true, true, [])
+  | k :: ks, mo :: ro :: os =>
+    match resOfObs ro, lookupWalk b ob ks os with
+    | some r, some (a, sp, ms) =>
+      let m := member b k
+      let mm := match m with | none => "-" | some x => renderMember x
+      let mr := new [m]
+      -- oracle: Member(key) is the listed member with that key or the zero Member; New accepts it back
+      let om := lookup ob k
+      let ok1 := mo == (match om with | none => "-" | some x => renderMember x)
+      let ok2 := match om with
+        | none => sameObs r (.error "member")
+        | some x => if (serialize [x]).length > maxBytesPerBaggageString then sameObs r (.error "bytes") else sameObs r (.ok [x])
+      some (a && mm == mo && sameRes mr r, sp && ok1 && ok2, (mm ++ " " ++ renderRes mr) :: ms)
+    | _, _ => none
+  | _, _ => none
+
 /-! ### one line -/
 
 def stepLine (_ : Unit) (toks : List String) : Unit × Option Verdict :=
@@ -348,6 +556,65 @@ def stepLine (_ : Unit) (toks : List String) : Unit × Option Verdict :=
         verdict agree (okFail spec) (es.length > 0) (if br.isEmpty then "-" else br)
           (" ".intercalate (heap.map renderBag))
     | _, _, _, _ => none
+  | "lookup" :: _ :: ms :: "|" :: keys, ro :: lo :: no :: "|" :: rest =>
+    match membersOfSpec ms, keys.mapM parseHex, resOfObs ro, parseNat lo, parseNat no with
+    | some ms, some keys, some ob, some ol, some on =>
+      let r := new ms
+      let b := match r with | .ok b => b | .error _ => []
+      let obag := match ob with | .ok x => x | .error _ => []
+      match lookupWalk b obag keys rest with
+      | some (a, sp, mtxt) =>
+        let hit := keys.any (fun k => (member b k).isSome)
+        let miss := keys.any (fun k => (member b k).isNone)
+        verdict (sameRes r ob && len b == ol && (members b).length == on && a)
+          (okFail (ol == obag.length && on == obag.length && sp)) (!b.isEmpty)
+          ((if hit then "hit" else "no-hit") ++ "," ++ (if miss then "miss" else "no-miss") ++ "," ++ resTag r)
+          (renderRes r ++ s!" {len b} {(members b).length} | " ++ " ".intercalate mtxt)
+      | none => none
+    | _, _, _, _, _ => none
+  | "alias" :: _ :: pt :: "|" :: steps, _ =>
+    match propsOfSpec pt, steps.mapM aStepOfSpec with
+    | some pt, some asteps =>
+      let st0 : AState := ⟨pt, List.replicate 8 none, [], [], List.replicate 8 none, [], [], true, true, [], []⟩
+      match aWalk asteps obs st0 with
+      | some st =>
+        verdict st.agree (okFail st.spec) (!st.bags.isEmpty || !st.mems.isEmpty)
+          (",".intercalate st.tags.eraseDups) (" ".intercalate st.model.reverse)
+      | none => none
+    | _, _ => none
+  | ["conc", _, ms], [bit, ob] =>
+    match membersOfSpec ms with
+    | some ms =>
+      match new ms with
+      | .error _ => verdict (bit == "err") "na" false "new-error" "err"
+      | .ok b =>
+        match bagOfObs ob with
+        | some ob =>
+          -- oracle: a value used by several goroutines at once, and its copy in a context, are never altered
+          verdict (bit == "1" && sameMap b ob) (okFail (bit == "1")) (!b.isEmpty) (if b.isEmpty then "empty" else "shared") ("1 " ++ renderBag b)
+        | none => none
+    | none => none
+  | "ctx" :: _ :: "|" :: ops, _ =>
+    let created := obs.takeWhile (· ≠ "|")
+    let final := ((obs.dropWhile (· ≠ "|")).drop 1).mapM bagOfObs
+    match ops.mapM ctxOpOfSpec, final with
+    | some cops, some final =>
+      match ctxWalk cops created [none] [[]] true true [] with
+      | some (heap, oheap, a, sp, mtxt) =>
+        let same := fun (x y : List Baggage) => x.length == y.length &&
+          (List.range x.length).all (fun i => sameMap (x.getD i []) (y.getD i []))
+        -- oracle: every context still holds at the end what it held when it was created
+        let imm := same oheap final
+        let br := ",".intercalate ((cops.map (fun o => match o with
+          | .withBag _ b => if b.isEmpty then "with-empty" else "with"
+          | .without _ => "without"
+          | .extract _ none => "extract-nohdr"
+          | .extract _ (some h) => if h.isEmpty then "extract-empty" else match parse h with | .ok _ => "extract-ok" | .error _ => "extract-err"
+          | .inject _ => "inject")).eraseDups)
+        verdict (a && same (heap.map fromContext) final) (okFail (sp && imm)) (cops.length > 1) br
+          (" ".intercalate mtxt ++ " | " ++ " ".intercalate ((heap.map fromContext).map renderBag))
+      | none => none
+    | _, _ => none
   | _, _ => none)
 
 end Otel.C11.Drv
